@@ -2,6 +2,7 @@ import Proofs.PrebuildFuel
 import Proofs.PrebuildCanon
 import Proofs.PrebuildFlatStmt   -- FLAT: the flat population between the two walkers
 import Proofs.SgShape            -- source tie of the text generator (builder sg-shape): appended section at the end
+import Proofs.SgInventory        -- inventory of the handlers, boundary of the model: last section
 
 /-!
   C05 — Prebuild followed by text generation reproduces the program.
@@ -432,5 +433,93 @@ example : handler (envN sgPop 2 1)
        .p .semi] ∧
     handler (envN sgPop 2 0) [.buf [.lit "return"], .accept (.one "inst" [⟨"V_VAL", 668, ""⟩] none)] (.sub (.ret 6 none)) =
       [.bad "return"] := by decide +kernel
+
+/-! ### inventory of the handlers; the boundary of the model as a checked statement -/
+
+/-- THE LIST of the handlers `ActionTextGenWalker.accept_*` of the source, by name, in source order (83, no name twice): a
+    handler added to / removed from / renamed in sourcegen.py changes the generated `handlers` and breaks this equation -/
+theorem handlers_inventory_as_in_source :
+    handlers.map Prod.fst =
+      ["accept_S_BRG", "accept_O_TFR", "accept_S_SYNC", "accept_O_DBATTR", "accept_SM_ACT", "accept_SPR_PO", "accept_SPR_PS",
+       "accept_SPR_RO", "accept_SPR_RS", "accept_ACT_ACT", "accept_ACT_BLK", "accept_ACT_SMT", "accept_ACT_RET",
+       "accept_ACT_BRK", "accept_ACT_CON", "accept_ACT_CTL", "accept_ACT_CR", "accept_ACT_CNV", "accept_ACT_DEL",
+       "accept_ACT_REL", "accept_ACT_RU", "accept_ACT_UNR", "accept_ACT_URU", "accept_ACT_FIO", "accept_ACT_SEL",
+       "accept_ACT_SRW", "accept_ACT_FIW", "accept_ACT_LNK", "accept_ACT_AI", "accept_ACT_WHL", "accept_ACT_IF",
+       "accept_ACT_EL", "accept_ACT_E", "accept_ACT_FOR", "accept_ACT_FNC", "accept_ACT_BRG", "accept_ACT_IOP",
+       "accept_ACT_SGN", "accept_ACT_TFM", "accept_V_VAL", "accept_V_TVL", "accept_V_ISR", "accept_V_VAR", "accept_V_IRF",
+       "accept_V_PVL", "accept_V_SLR", "accept_V_MVL", "accept_V_AVL", "accept_V_AER", "accept_V_ALV", "accept_V_LIN",
+       "accept_V_LRL", "accept_V_LST", "accept_V_LBO", "accept_V_LEN", "accept_V_BIN", "accept_V_UNY", "accept_V_PAR",
+       "accept_V_EDV", "accept_V_EPR", "accept_SM_EVTDI", "accept_V_FNV", "accept_V_BRV", "accept_V_TRV", "accept_V_MSV",
+       "accept_V_SCV", "accept_SPR_PEP", "accept_SPR_REP", "accept_E_GPR", "accept_E_ESS", "accept_E_GES", "accept_E_CES",
+       "accept_SM_EVT", "accept_E_GSME", "accept_E_GAR", "accept_E_GEC", "accept_E_CSME", "accept_E_CEA", "accept_E_CEC",
+       "accept_O_TPARM", "accept_S_SPARM", "accept_S_BPARM", "accept_C_PP"] ∧
+    handlers.length = 83 ∧ (handlers.map Prod.fst).Nodup ∧ default_accept = [.printClassName] := by
+  refine ⟨by rfl, by rfl, by decide +kernel, by rfl⟩
+
+/-- THE BOUNDARY of the model.  (1), (2): the 83 handlers split, in source order, into the 39 of `modelledClasses` (tied to
+    `regen*` for all inputs by the seven theorems above and the three clause theorems below) and the 44 of `outsideClasses`;
+    (3) the 44 are exactly: action homes (S_BRG O_TFR S_SYNC O_DBATTR SM_ACT SPR_PO SPR_PS SPR_RO SPR_RS), `select … related
+    by` (ACT_SEL ACT_SRW ACT_LNK), invocation statements (ACT_FNC ACT_BRG ACT_IOP ACT_SGN ACT_TFM), value subtypes without a
+    row (V_MVL V_AER V_ALV V_EDV V_FNV V_BRV V_TRV V_MSV), parameter chains and names (V_PAR V_EPR SM_EVTDI SPR_PEP SPR_REP
+    O_TPARM S_SPARM C_PP), the event subsystem (E_GPR E_ESS E_GES E_CES SM_EVT E_GSME E_GAR E_GEC E_CSME E_CEA E_CEC);
+    (4) no row of ANY flat population is of an outside class, and `getattr(self, 'accept_' + class)` finds a handler for every
+    row but the three R814 subtypes V_INT V_INS V_TRN (which no handler navigates to) -/
+theorem model_boundary_as_in_source :
+    (handlers.map Prod.fst).filter (fun n => modelledClasses.any (fun c => handlerName c == n)) =
+      modelledClasses.map handlerName ∧
+    (handlers.map Prod.fst).filter (fun n => !modelledClasses.any (fun c => handlerName c == n)) =
+      outsideClasses.map handlerName ∧
+    (let groups := outsideHomes ++ outsideSelectRelated ++ outsideInvocationStatements ++ outsideValues ++
+        outsideParameters ++ outsideEvents
+     groups.length = outsideClasses.length ∧ groups.Nodup ∧ outsideClasses.all groups.contains = true ∧
+       modelledClasses.length = 39 ∧ outsideClasses.length = 44) ∧
+    (∀ r : Row, outsideClasses.contains r.cls = false ∧
+      (handlers.lookup (handlerName r.cls)).isSome = !unvisitedRowClasses.contains r.cls) := by
+  refine ⟨by decide +kernel, by decide +kernel, by decide +kernel, ?_⟩
+  intro r
+  cases r <;> (simp only [Row.cls]; exact ⟨by decide +kernel, by decide +kernel⟩)
+
+/-- WHERE a modelled handler names a class on the other side: exactly four hops in the whole source — accept_ACT_AI asks for
+    the R801 V_MSV of the R609 value ('send ' or 'assign '), accept_V_PVL accepts the R832 S_SPARM, the R833 O_TPARM and the
+    R843 C_PP next to the R831 S_BPARM.  For EVERY population and EVERY instance these four navigations find nothing (so
+    'assign ' is written, and `accept(None)` prints nothing): Flat.lean records the parameter of a V_PVL, whatever its class,
+    under R831 — and the four parameter-name handlers of the source are the same statement list, `buf(inst.Name)` -/
+theorem boundary_crossings_as_in_source :
+    boundaryCrossings =
+      [("accept_ACT_AI", ⟨"V_MSV", 801, ""⟩), ("accept_V_PVL", ⟨"S_SPARM", 832, ""⟩), ("accept_V_PVL", ⟨"O_TPARM", 833, ""⟩),
+       ("accept_V_PVL", ⟨"C_PP", 843, ""⟩)] ∧
+    (∀ (q : FlatPop) (x : Inst), hopMany q x ⟨"V_MSV", 801, ""⟩ = [] ∧ hopMany q x ⟨"S_SPARM", 832, ""⟩ = [] ∧
+      hopMany q x ⟨"O_TPARM", 833, ""⟩ = [] ∧ hopMany q x ⟨"C_PP", 843, ""⟩ = []) ∧
+    accept_S_SPARM = accept_S_BPARM ∧ accept_O_TPARM = accept_S_BPARM ∧ accept_C_PP = accept_S_BPARM ∧
+    accept_S_BPARM = [.buf [.attr "inst" "Name"]] := by
+  refine ⟨by decide +kernel, fun q x => ⟨hopMany_msv q x, hopMany_foreign q x _ _ (by simp), hopMany_foreign q x _ _ (by simp),
+    hopMany_foreign q x _ _ (by simp)⟩, rfl, rfl, rfl, rfl⟩
+
+/-- accept_ACT_E on its own (inside `statement_as_in_source` it is reached through accept_ACT_IF): 'else', the R606 block -/
+theorem else_clause_as_in_source (q : FlatPop) (f n a eb s : Nat) :
+    handler (envN q f n) accept_ACT_E (.sub (.e a eb s)) = [Tok.kw .else_] ++ regenBlk q f eb :=
+  accept_ACT_E_eq q f n a eb s
+
+/-- accept_ACT_EL on its own (one clause of `regenElifs`): 'elif ', the R659 value, the R658 block -/
+theorem elif_clause_as_in_source (q : FlatPop) (f n a blk v i : Nat) :
+    handler (envN q f n) accept_ACT_EL (.sub (.el a blk v i)) = [Tok.kw .elif_] ++ regenVal q f v ++ regenBlk q f blk :=
+  accept_ACT_EL_eq q f n a blk v i
+
+/-- accept_S_BPARM on its own, under any oracles: the parameter's Name; it is the last token of the V_PVL clause of `regenVal`.
+    Hypothesis of the second part: the R801 subtype row of the value is that V_PVL row (discharged below on a population) -/
+theorem parameter_name_as_in_source (E : Env) (v : Nat) (name : String) :
+    handler E accept_S_BPARM (.elem "S_BPARM" (.pvl v name)) = [Tok.ident name] ∧
+    (∀ (f w : Nat), valSub E.q w = some (.pvl v name) →
+      regenVal E.q (f + 1) w = [Tok.kw .param, Tok.p .dot] ++ handler E accept_S_BPARM (.elem "S_BPARM" (.pvl v name))) := by
+  refine ⟨accept_S_BPARM_eq E v name, fun f w h => ?_⟩
+  rw [regenVal, h, accept_S_BPARM_eq]; rfl
+
+/-- non-vacuity: the two clause handlers on the clauses of `sgPop`; a mutated inventory is a different list -/
+example : handler (envN sgPop 3 0) accept_ACT_E (.sub (.e 22 23 16)) = [.kw .else_] ∧
+    handler (envN sgPop 3 0) accept_ACT_EL (.sub (.el 19 20 9 16)) = [.kw .elif_, .num "2"] ∧
+    valSub [.val 0, .pvl 0 "x"] 0 = some (.pvl 0 "x") ∧
+    regenVal [.val 0, .pvl 0 "x"] 1 0 = [.kw .param, .p .dot, .ident "x"] := by decide +kernel
+example : ((handlers.map Prod.fst).erase "accept_V_SCV").length = 82 ∧
+    boundaryCrossings.length = 4 ∧ (handlers.lookup (handlerName (Row.vtrn 0).cls)).isSome = false := by decide +kernel
 
 end PyxProps.C05
